@@ -92,6 +92,7 @@ class FoldExec(Exec):
         for idx, line in enumerate(lines):
             last = idx == len(lines) - 1
             self.cur_path = path
+            self.cur_fn = f
             if not last:
                 self.stmt(line, frame, mem)
                 continue
